@@ -16,6 +16,9 @@ pub struct Case {
   /// permutation seeds of the metamorphic variants (variant 0 = canonical order)
   pub perms: Vec<u64>,
   pub launches: usize,
+  /// generated rule documents (id, YAML): utility graphs, overlapping fixable rules
+  #[serde(default)]
+  pub extra_docs: Vec<(String, String)>,
 }
 
 #[derive(Clone, Debug)]
@@ -23,6 +26,7 @@ pub struct Choice {
   rules: Vec<u8>,
   stmts: Vec<(u8, u8, u8)>,
   perms: Vec<u64>,
+  extra: Vec<u8>,
 }
 
 pub fn strategy(perms: usize) -> BoxedStrategy<Choice> {
@@ -30,8 +34,9 @@ pub fn strategy(perms: usize) -> BoxedStrategy<Choice> {
     prop::collection::vec(0u8..6, 2..=5),
     prop::collection::vec((0u8..8, 0u8..7, 0u8..7), 2..8),
     prop::collection::vec(any::<u64>(), perms..=perms),
+    prop::collection::vec(any::<u8>(), 24..=24),
   )
-    .prop_map(|(rules, stmts, perms)| Choice { rules, stmts, perms })
+    .prop_map(|(rules, stmts, perms, extra)| Choice { rules, stmts, perms, extra })
     .boxed()
 }
 
@@ -152,6 +157,62 @@ fix: "$F($Z, $Y, $W)"
   ]
 }
 
+
+/// A rule whose kinds come from a generated graph of local utilities: 2-5 utilities, each refers
+/// to later ones (acyclic) from inside any / all / not or, sometimes, by a top-level `matches`.
+fn util_graph_doc(e: &[u8]) -> (String, String) {
+  let n = 2 + e[0] as usize % 4;
+  let kinds = ["number", "string", "identifier", "call_expression", "array", "true"];
+  let mut utils = String::new();
+  for i in 0..n {
+    let k = kinds[e[1 + i] as usize % kinds.len()];
+    let later = |j: usize| i + 1 + (e[6 + i + j] as usize % (n - i - 1).max(1));
+    let body = if i + 1 >= n {
+      format!("{{kind: {k}}}")
+    } else {
+      match e[12 + i] % 6 {
+        0 => format!("{{any: [{{kind: {k}}}, {{matches: v{}}}]}}", later(0)),
+        1 => format!("{{any: [{{matches: v{}}}, {{matches: v{}}}, {{kind: {k}}}]}}", later(0), later(1)),
+        2 => format!("{{all: [{{any: [{{kind: {k}}}, {{matches: v{}}}]}}, {{regex: \"^.\"}}]}}", later(0)),
+        3 => format!("{{kind: {k}, not: {{matches: v{}}}}}", later(0)),
+        4 => format!("{{matches: v{}}}", later(0)),
+        _ => format!("{{any: [{{kind: {k}}}, {{all: [{{matches: v{}}}]}}]}}", later(0)),
+      }
+    };
+    utils.push_str(&format!("  v{i}: {body}\n"));
+  }
+  let rule = match e[18] % 3 {
+    0 => "{matches: v0, inside: {kind: arguments, stopBy: end}}".to_string(),
+    1 => "{matches: v0}".to_string(),
+    _ => "{any: [{matches: v0}, {kind: number}], inside: {pattern: \"foo($$$)\", stopBy: end}}".to_string(),
+  };
+  let id = format!("util-graph-{}", e[19] % 3);
+  (id.clone(), format!("id: {id}\nlanguage: JavaScript\nmessage: \"graph\"\nrule: {rule}\nutils:\n{utils}"))
+}
+
+/// Fixable rules whose matches overlap on the generated statements; ids are chosen so that the
+/// alphabetical order differs from the order of the documents
+fn overlapping_fix_docs(e: &[u8]) -> Vec<(String, String)> {
+  let pool = [
+    ("pattern: \"foo($$$ARGS)\"", "fa($$$ARGS)"),
+    ("pattern: \"foo($A, $B)\"", "fb($B, $A)"),
+    ("{kind: call_expression, regex: \"^(foo|qux)\"}", "q()"),
+    ("pattern: \"$F($$$X)\"", "g($$$X)"),
+    ("{kind: number}", "0"),
+    ("{kind: arguments, has: {kind: number}}", "(n)"),
+  ];
+  let ids = ["zz-late", "aa-early", "mm-middle", "b", "Z-upper"];
+  let n = 2 + e[0] as usize % 2;
+  (0..n)
+    .map(|i| {
+      let (rule, fix) = pool[e[1 + i] as usize % pool.len()];
+      let id = format!("{}-{i}", ids[e[4 + i] as usize % ids.len()]);
+      let rule = if rule.starts_with('{') { rule.to_string() } else { format!("{{{rule}}}") };
+      (id.clone(), format!("id: {id}\nlanguage: JavaScript\nmessage: \"fixable {i}\"\nrule: {rule}\nfix: \"{fix}\"\n"))
+    })
+    .collect()
+}
+
 const PERMUTABLE: &[&str] = &["utils", "transform", "constraints", "rewriters"];
 
 fn shuffle<T>(v: &mut [T], seed: u64, tag: &str) {
@@ -199,11 +260,19 @@ pub fn interpret(ch: &Choice, _st: &mut Stats) -> Option<Case> {
   let source = ch.stmts.iter().map(|(k, a, b)| stmt(*k, *a, *b)).collect::<Vec<_>>().join("\n") + "\n";
   let mut perms = vec![0u64];
   perms.extend(ch.perms.iter().map(|p| p | 1));
+  let mut extra_docs = vec![];
+  if ch.extra[20] % 3 != 0 {
+    extra_docs.push(util_graph_doc(&ch.extra[..20]));
+  }
+  if ch.extra[21] % 3 != 0 {
+    extra_docs.extend(overlapping_fix_docs(&ch.extra[8..]));
+  }
   Some(Case {
     rules,
     source,
     perms,
     launches: 0,
+    extra_docs,
   })
 }
 
@@ -219,6 +288,10 @@ fn materialise(case: &Case, seed: u64) -> TempDir {
       (t[*i].0.to_string(), permute_doc(&y, seed))
     })
     .collect();
+  for (id, y) in &case.extra_docs {
+    let y: Y = serde_yaml::from_str(y).expect("generated yaml");
+    docs.push((id.clone(), permute_doc(&y, seed)));
+  }
   if seed != 0 {
     shuffle(&mut docs, seed, "docs");
   }
@@ -302,6 +375,7 @@ pub fn check(case: &Case, st: &mut Stats) -> CheckResult {
   let launches = if case.launches == 0 { 4 } else { case.launches };
   let mut reference: Option<(Vec<Value>, Option<i32>)> = None;
   let mut snap_ref: Option<BTreeMap<String, u64>> = None;
+  let mut update_ref: Option<(Vec<u8>, Vec<u8>)> = None;
   for (pi, seed) in case.perms.iter().enumerate() {
     let dir = materialise(case, *seed);
     for k in 0..launches {
@@ -359,10 +433,40 @@ pub fn check(case: &Case, st: &mut Stats) -> CheckResult {
       }
       st.label("snapshot_rounds");
     }
+    // `scan -U`: the bytes written must not depend on the variant or the launch
+    let reps = if pi == 0 { 2 } else { 1 };
+    for rep in 0..reps {
+      dir.write("src/a.js", case.source.as_bytes());
+      dir.write("src/deep/b.js", case.source.as_bytes());
+      let out = cli::sgv(&["scan", "-U"], &dir.path, None);
+      if out.timed_out {
+        return Err(Fail::new("inconclusive:watchdog", "sgv scan -U did not finish"));
+      }
+      if out.panicked() {
+        return Err(Fail::new("C13:cli-panic", out.stderr_str()));
+      }
+      let written = (dir.read("src/a.js").unwrap_or_default(), dir.read("src/deep/b.js").unwrap_or_default());
+      match &update_ref {
+        None => update_ref = Some(written),
+        Some(r) => {
+          if *r != written {
+            let which = if pi == 0 { "relaunch" } else { "permuted-project" };
+            fail!(
+              format!("C13:{which}:update-all-result-differs"),
+              "`scan -U` writes different bytes (variant {pi}, repetition {rep}):\n--- reference\n{}\n--- this run\n{}\nrules: {:?}",
+              String::from_utf8_lossy(&r.0),
+              String::from_utf8_lossy(&written.0),
+              case.extra_docs.iter().map(|(i, _)| i).collect::<Vec<_>>()
+            );
+          }
+        }
+      }
+      st.label("update_all_rounds");
+    }
   }
   st.label("cases");
   let findings = reference.as_ref().map(|r| r.0.len()).unwrap_or(0);
-  let interdependent = case.rules.iter().any(|r| matches!(r, 0 | 1 | 2 | 3 | 5));
+  let interdependent = case.rules.iter().any(|r| matches!(r, 0 | 1 | 2 | 3 | 5)) || !case.extra_docs.is_empty();
   if interdependent && findings > 0 {
     st.label("nontrivial");
     st.nontrivial(&(&case.rules, &case.source, &case.perms));
